@@ -225,7 +225,7 @@ func permutations(n int) [][]int {
 func TestC06(t *testing.T) {
 	r := ev.Start(t, "C06", "exploration")
 	defer r.Finish()
-	r.Rule("sets of 1-4 programs drawn from a family sharing the metric names x,y (same/different kind, Int/Float, scalar / 1 / 2 keys, hidden), some with a syntax error, some raising runtime errors on half of the lines; loaded into one real Runtime in every order (sets <=3, exhaustively) or a random order with interleaved unload / edited-reload of other programs (sets of 4); lines fed in two batches. For every program that the refusal model says loads, the projection of the store and of the Prometheus scrape onto that program must equal the projection of the same program run alone on the same lines; refused/broken programs must export nothing. Non-trivial: set with >=2 programs sharing a metric name; distinct by (set, order).")
+	r.Rule("sets of 1-4 programs drawn from a family sharing the metric names x,y (same/different kind, Int/Float, scalar / 1 / 2 keys, hidden), some with a syntax error, two of them byte-identical in every fifth set, some raising runtime errors on half of the lines; loaded into one real Runtime in every order (sets <=3, exhaustively) or a random order with interleaved unload / edited-reload of other programs (sets of 4); lines fed in two batches. For every program that the refusal model says loads, the projection of the store and of the Prometheus scrape onto that program must equal the projection of the same program run alone on the same lines; refused/broken programs must export nothing. Non-trivial: set with >=2 programs sharing a metric name; distinct by (set, order).")
 	r.Assume("refusal model: a program is refused iff, when it is loaded, one of its non-hidden names is in the store with another kind", "a program edited by another program's reload keeps its declarations in place (C14 covers the rest)")
 	nsets := ev.Pick(60, 2500)
 	rng := ev.NewRNG(ev.Seed(), "c06")
@@ -235,6 +235,11 @@ func TestC06(t *testing.T) {
 		var progs []pspec
 		for i := 0; i < np; i++ {
 			progs = append(progs, genProg(g, i))
+		}
+		if np >= 2 && si%5 == 2 {
+			// two files with byte-identical text are still two programs
+			progs[np-1] = progs[0]
+			r.Count("sets_with_two_byte_identical_programs", 1)
 		}
 		var orders [][]int
 		if np <= 3 {
